@@ -280,11 +280,13 @@ theorem bary3dRaw_shift (x0 x1 x2 q : V3 ℝ) (s : ℝ) :
   simp only [bary3dRaw, triNormal, cross, dot, V3.sub, vadd, vsmul, add_eq, sub_eq, mul_eq]
   congr 1 <;> ring
 
-/-- … so "projecting" with the UN-normalised normal, as `ref_node_bary3d` does (it subtracts
-    `n·((p-x0)·n)` instead of `n·((p-x0)·n)/(n·n)`), is harmless: independent of the normal's length -/
+/-- … so in EXACT arithmetic the projection step of `ref_node_bary3d` does not change the raw weights, whichever
+    branch of its division guard is taken (in floating point the amount matters: before the repair in /repo the
+    offset was not divided by `n·n` and cancelled catastrophically for large triangles) -/
 theorem bary3d_raw_eq (x0 x1 x2 p : V3 ℝ) :
     bary3dRaw x0 x1 x2 (bary3dPoint x0 x1 x2 p) = bary3dRaw x0 x1 x2 p := by
-  rw [bary3dPoint_eq, bary3dRaw_shift]
+  obtain ⟨s, hs⟩ := bary3dPoint_eq x0 x1 x2 p
+  rw [hs, bary3dRaw_shift]
 
 theorem bary3d_sum {x0 x1 x2 p : V3 ℝ} {w : B3 ℝ} (h : bary3d x0 x1 x2 p = (St.ok, w)) :
     w.b0 + w.b1 + w.b2 = 1 := by
